@@ -123,6 +123,10 @@ func ProfileFor(focus, arm string) Profile {
 		p.EDNSProb = 0.7
 		p.OptInReply = 0.5
 		p.Listeners = []string{"udp", "udp", "tcp", "gnet", "https", "http"}
+	case "C15":
+		p.Listeners = []string{"udp", "udp", "tcp", "http", "gnet", "tls", "https"}
+		p.Cache = "off"
+		p.IpMarker, p.ECS = 0, 0.2
 	case "C17":
 		p.Listeners = []string{"tls", "https", "tls", "https", "tcp"}
 		p.NListeners = [2]int{1, 3}
@@ -722,6 +726,8 @@ func makeGarbage(r *rng, op *plan.ClientOp, proto string) {
 func specialize(r *rng, p *plan.Plan, focus, arm string) {
 	rp := p.Router
 	switch focus {
+	case "C15":
+		genC15(r, p)
 	case "C11":
 		genC11(r, p)
 	case "C18", "C10":
@@ -998,7 +1004,6 @@ func genCacheOps(r *rng, p *plan.Plan, focus, arm string) {
 	p.Knobs.GCEveryUs = 0
 }
 
-
 var oddLabels = [][]byte{
 	[]byte("a"), []byte("a\x00"), []byte("b"), []byte("ab"), []byte("x\x07y"), []byte("\xff\xfe"), []byte("w-w"), []byte("7"), []byte("\x07"),
 	[]byte("a\\b"), []byte("UP"), []byte("up"), []byte("abcdefghijklmnopqrstuvwx"), []byte("abcdefghijklmnopqrstuvwxy"), []byte("abcdefghijklmnopqrstuvwx\x00"),
@@ -1152,4 +1157,73 @@ func genC11(r *rng, p *plan.Plan) {
 		op.Bits = refdns.BitRD
 		op.NQ = 1
 	}
+}
+
+// genC15 configures the limiter and a workload of a few heavy subnets plus
+// light "victim" subnets that stay far inside their own budget.
+func genC15(r *rng, p *plan.Plan) {
+	rp := p.Router
+	rp.Rules = []plan.RuleSpec{{Forward: rp.Upstreams[0].Tag}}
+	rp.DomainSets = nil
+	rp.Cache.MemSize = 0
+	rp.Limiter = plan.LimiterSpec{Limit: []int{2, 5, 20}[r.intn(3)], Burst: []int{0, 100, 200}[r.intn(3)]}
+	if r.p(0.3) {
+		rp.Limiter.V4Mask = []int{16, 24, 32}[r.intn(3)]
+	}
+	if r.p(0.3) {
+		rp.Limiter.V6Mask = []int{48, 56, 64}[r.intn(3)]
+	}
+	for i := range rp.Servers {
+		rp.Servers[i].ClientAddrHeader = ""
+		rp.Servers[i].MTLS = false
+	}
+	rp.Conns, rp.Ops = nil, nil
+	rp.Tokens = map[string]*plan.TokenSpec{}
+	heavy4 := []string{"192.0.2.7", "192.0.2.9", "198.51.100.9"}
+	heavy6 := []string{"2001:db8:a::5", "2001:db8:a:1::6"}
+	light4 := []string{"203.0.113.77", "100.64.1.1", "172.16.5.5"}
+	light6 := []string{"2001:db8:ffff::1", "2001:db8:b:12::9"}
+	add := func(src string, at int64, si int) {
+		srv := rp.Servers[si]
+		ci := len(rp.Conns)
+		rp.Conns = append(rp.Conns, plan.ClientConn{Idx: ci, Server: si, Src: src, LingerUs: 8_000_000, HTTP2: srv.Proto == "https" && r.p(0.5)})
+		idx := len(rp.Ops)
+		tok := fmt.Sprintf("t%d", idx)
+		op := plan.ClientOp{Idx: idx, Conn: ci, AtUs: at, ID: uint16(r.u64()), Token: tok, NQ: 1, Class: 1, Type: 1, Bits: refdns.BitRD, Labels: append([][]byte{[]byte(tok)}, labelsOf("example.com")...)}
+		if srv.Proto == "http" || srv.Proto == "fasthttp" || srv.Proto == "https" {
+			op.Method = []string{"GET", "POST"}[r.intn(2)]
+		}
+		rp.Ops = append(rp.Ops, op)
+		rp.Tokens[tok] = &plan.TokenSpec{Ans: plan.AnswerSpec{NAn: 1, TTLs: []uint32{60}, Shape: "plain"}, Acts: []plan.UpAction{{Kind: "reply", DelayUs: r.i64(100, 5000)}}}
+	}
+	pickSrc := func(si int, v4, v6 []string) string {
+		l := rp.Servers[si].Listen
+		switch {
+		case strings.HasPrefix(l, "127.") || strings.HasPrefix(l, "0.0.0.0"):
+			return r.pick(v4)
+		case strings.HasPrefix(l, "[::1]"):
+			return r.pick(v6)
+		}
+		if r.p(0.5) {
+			return r.pick(v4)
+		}
+		return r.pick(v6)
+	}
+	// heavy traffic in bursts
+	t := int64(20_000)
+	for n := r.rng(40, 300); n > 0; n-- {
+		if r.p(0.1) {
+			t += r.i64(500_000, 5_000_000)
+		} else {
+			t += r.i64(0, 20_000)
+		}
+		si := r.intn(len(rp.Servers))
+		add(pickSrc(si, heavy4, heavy6), t, si)
+	}
+	// victims: a handful of queries, far inside their own budget
+	for n := r.rng(2, 6); n > 0; n-- {
+		si := r.intn(len(rp.Servers))
+		add(pickSrc(si, light4, light6), r.i64(20_000, t), si)
+	}
+	rp.HorizonUs = t + 8_000_000 + 12_000_000
 }
